@@ -10,8 +10,13 @@ C17 — line-protocol driver of the model (core only).  One op per line, one ans
   reopen                                Close + Init on the same directory
   crashrotate                           Init on the image of a crash inside `rotate` (correspondence only)
   first | last | term <i> | ents <lo> <hi> <max> | snap | hs | files
+  new <rw>                              as `new`; the file wrapper the real store runs on (1 | 2) is not part of the model
+  pend <save… | mksnap… | delbefore…>   remember the mutation list of the operation on the current state (Crash.lean)
+  muts                                  that list: count, hash, head and tail of the canonical texts
+  crash <j> <k> <lo>                    `Init` on the image with mutations 0…j-1 complete and k bytes of mutation j,
+                                        questioned: first/last, hard state, snapshot, two windows of entries, terms, files
 -/
-import OG.C17.Model
+import OG.C17.Crash
 
 namespace OG.C17
 open OG.Gen.C17 (goParams)
@@ -113,9 +118,79 @@ def showFiles (p : Params) (s : State) : String :=
 
 def withPanic (s : State) (ans : String) : String := if s.panicked then "err panic" else ans
 
+/-! ### crash images -/
+
+def Mut.text : Mut → String
+  | .rmLast fid => s!"r:{fid}"
+  | .rmFirst fid => s!"r:{fid}"
+  | .trunc fid size => s!"t:{fid}={size}"
+  | .create fid => s!"c:{fid}"
+  | .fill fid n => s!"w:{fid}@0+{n}"
+  | .pay fid off d => s!"w:{fid}@{off}+{4 + d.size}"
+  | .slot fid i _ => s!"w:{fid}@{OG.Gen.C17.entrySize * i}+32"
+  | .zero fid k n => s!"w:{fid}@{OG.Gen.C17.entrySize * k}+{4 + n}"
+  | .hs _ => s!"w:m@{OG.Gen.C17.hardStateOffset}"
+  | .snap _ => s!"w:m@{OG.Gen.C17.snapshotIndex}"
+
+def showMuts (ms : List Mut) : String :=
+  let n := ms.length
+  let (_, h, shown) := ms.foldl (fun (acc : Nat × UInt64 × Array String) m =>
+    let (i, h, shown) := acc
+    let t := m.text
+    let h := t.toUTF8.foldl (fun h b => fnvStep h b.toUInt64) h
+    let h := fnvStep h 10
+    let shown := if i < 10 || i + 4 ≥ n then (if i + 4 == n && i > 10 then (shown.push "…").push t else shown.push t) else shown
+    (i + 1, h, shown)) (0, (14695981039346656037 : UInt64), #[])
+  s!"ok n={n} h={h.toNat} {" ".intercalate shown.toList}"
+
+def entsDigest (p : Params) (s : State) (lo hi : Nat) : String :=
+  match entries p s lo hi 4611686018427387904 with
+  | .error e => "err:" ++ errName e
+  | .ok es =>
+    let h := es.foldl hashEntry 14695981039346656037
+    let ends := if es.size == 0 then "-" else s!"{es[0]!.index}..{es[es.size - 1]!.index}"
+    s!"{es.size}:{ends}:{h.toNat}"
+
+def termDigest (p : Params) (s : State) (i : Nat) : String :=
+  match term p s i with
+  | .ok t => toString t
+  | .error e => errName e
+
+def filesDigest (p : Params) (s : State) : String :=
+  let fs := sortBy (·.fid) (s.files ++ [s.current])
+  if fs.isEmpty then "-" else ",".intercalate (fs.map fun f => s!"{f.fid}:{f.size p}:{f.firstIndex}")
+
+/-- what the harness asks a store opened on a crash image -/
+def digest (p : Params) (s : State) (lo : Nat) : String :=
+  let lf := logFirstIndex s
+  let ll := logLastIndex p s
+  let aLo := max lf lo
+  let aHi := min (ll + 1) (aLo + 60)
+  let aHi := if aHi < aLo then aLo else aHi
+  let bHi := ll + 1
+  let bLo := max lf (bHi - min bHi 9)
+  let bLo := if bLo > bHi then bHi else bLo
+  let ts := [lf - 1, lf, ll, ll + 1, s.mt.snapIndex].map (termDigest p s)
+  s!"ok f={firstIndex s} l={lastIndex p s} lf={lf} ll={ll} hs={s.mt.hs.term},{s.mt.hs.vote},{s.mt.hs.commit} snap={showSnap s.mt.snap} si={s.mt.snapIndex},{s.mt.snapTerm} a={aLo}-{aHi}={entsDigest p s aLo aHi} b={bLo}-{bHi}={entsDigest p s bLo bHi} t={"/".intercalate ts} files={filesDigest p s}"
+
+/-- the mutation list of an operation line on state `s` -/
+def pendMuts (p : Params) (s : State) (toks : List String) : Option (List Mut) :=
+  match toks with
+  | ["save", hs, sn, first, groups] =>
+    match parseHS hs, parseSnap sn, first.toNat?.bind (parseGroups · groups) with
+    | some hs, some sn, some ents => some (saveMuts p s hs ents sn)
+    | _, _, _ => none
+  | ["mksnap", i, vn, conf, data] =>
+    match i.toNat? with
+    | some i => if vn != "0" && vn != "1" then none else some (mksnapMuts p s i ⟨0, 0, vn == "1", conf, data⟩)
+    | none => none
+  | ["delbefore", i] => i.toNat?.map (deleteBeforeMuts p s)
+  | _ => none
+
 def step (p : Params) (s : State) (line : String) : State × String :=
   match (line.trimAscii.toString.splitOn " ").filter (· ≠ "") with
   | ["new"] => (initState p, "ok")
+  | ["new", rw] => if rw == "1" || rw == "2" then (initState p, "ok") else (s, "bad-op")
   | ["save", hs, sn, first, groups] =>
     match parseHS hs, parseSnap sn, first.toNat?, first.toNat?.bind (parseGroups · groups) with
     | some hs, some sn, some _, some ents =>
@@ -171,15 +246,49 @@ def step (p : Params) (s : State) (line : String) : State × String :=
   | ["files"] => (s, showFiles p s)
   | _ => (s, "bad-op")
 
-partial def loop (h : IO.FS.Stream) (out : IO.FS.Stream) (s : State) : IO Unit := do
+/-- driver state: the model state, the remembered mutation list of the pending operation, and
+the state with the first `cj` of them applied (`crashFrom_eq`: same answers as `crashAt`) -/
+structure DState where
+  s : State
+  pend : List Mut
+  cj : Nat
+  cs : State
+
+/-- `pend` / `muts` / `crash` work on the remembered mutation list; everything else is `step` -/
+def stepC (p : Params) (d : DState) (line : String) : DState × String :=
+  match (line.trimAscii.toString.splitOn " ").filter (· ≠ "") with
+  | "pend" :: toks =>
+    match pendMuts p d.s toks with
+    | some ms => ({ d with pend := ms, cj := 0, cs := d.s }, "ok")
+    | none => ({ d with pend := [], cj := 0, cs := d.s }, "bad-op")
+  | ["muts"] => (d, showMuts d.pend)
+  | ["crash", j, k, lo] =>
+    match j.toNat?, k.toNat?, lo.toNat? with
+    | some j, some k, some lo =>
+      -- bring the remembered prefix state forward to j complete mutations
+      let d := if d.cj ≤ j && j ≤ d.pend.length then { d with cj := j, cs := applyMuts p d.cs ((d.pend.take j).drop d.cj) } else d
+      let c := if d.cj == j then crashFrom p d.pend j d.cs j k else crashAt p d.s d.pend j k
+      match c with
+      | none => (d, "bad-op")
+      | some c =>
+        if c.panicked then (d, "err panic")
+        else match recover p c with
+          | .ok s' => (d, digest p s' lo)
+          | .error _ => (d, "err init")
+    | _, _, _ => (d, "bad-op")
+  | _ =>
+    let (s', ans) := step p d.s line
+    ({ d with s := s', pend := [], cj := 0, cs := s' }, ans)
+
+partial def loop (h : IO.FS.Stream) (out : IO.FS.Stream) (d : DState) : IO Unit := do
   let line ← h.getLine
   if line.isEmpty then return ()
-  let (s', ans) := step goParams s line
+  let (d', ans) := stepC goParams d line
   out.putStrLn ans
-  loop h out s'
+  loop h out d'
 
 def main : IO Unit := do
-  loop (← IO.getStdin) (← IO.getStdout) (initState goParams)
+  loop (← IO.getStdin) (← IO.getStdout) ⟨initState goParams, [], 0, initState goParams⟩
 
 end OG.C17
 
